@@ -36,7 +36,17 @@ func c14Case(c *core.Case) {
 		return
 	}
 	src := pickSeed(c, false)
-	if gen.Chance(r, 0.7) {
+	if gen.Chance(r, 0.08) {
+		// heredoc edges: what may follow a closing marker, odd indentation
+		src = []byte(gen.Pick(r, c14Heredocs))
+		c.Count("source:heredoc-edges")
+		if gen.Chance(r, 0.5) {
+			src = bytes.ReplaceAll(src, []byte("\n"), []byte("\r\n"))
+		}
+		if gen.Chance(r, 0.7) {
+			src = gen.Mutate(r, src, 1)
+		}
+	} else if gen.Chance(r, 0.7) {
 		src = gen.Mutate(r, src, 6)
 	}
 	start := hcl.InitialPos
@@ -82,6 +92,101 @@ func c14Case(c *core.Case) {
 }
 
 var utf8BOM = []byte{0xef, 0xbb, 0xbf}
+
+var c14Heredocs = func() []string {
+	var out []string
+	for _, ws := range []string{"", " ", "\t", "\f", "\v", "\u0085", "\u00a0", "\u3000", " \f ", "\u2028", "x"} {
+		out = append(out,
+			"a = <<EOT\nx\nEOT"+ws+"\nb = 1\n",
+			"a = <<-EOT\n  x\n  EOT"+ws+"\nb = 1\n",
+			"a = \"${<<EOT\nx\nEOT"+ws+"\n}\"\nb = 1\n",
+			"a = [<<EOT\nx ${y}\nEOT"+ws+"\n, 2]\n",
+			"a = <<EOT"+ws+"\nx\nEOT\n",
+		)
+	}
+	for _, ind := range []string{"  ", "\t", "\u00a0\u00a0", "\u3000", " \u00a0", "\u00a0 ", "\u2003\u2003"} {
+		out = append(out,
+			"a = <<-EOT\n"+ind+"foo ${s}\n"+ind+"bar\n"+ind+"EOT\nb = 1\n",
+			"a = <<-EOT\n"+ind+"%{ if f }yes\n"+ind+"%{ else }no\n"+ind+"%{ endif }\n"+ind+"EOT\n",
+			"a = <<-EOT\n"+ind+ind+"deeper\n"+ind+"base ${n}\n"+ind+"EOT\n",
+		)
+	}
+	return out
+}()
+
+// posTable gives the (line, column) of every byte offset of src that is a
+// grapheme cluster boundary, counted independently of the lexer.
+type posTable struct {
+	line, col []int // 0 = not a cluster boundary
+	// tainted lines hold a token boundary that splits a grapheme cluster (a
+	// combining mark right after a quote, say); the lexer counts clusters per
+	// token, so later columns on such a line are outside the property
+	tainted map[int]bool
+}
+
+func newPosTable(src []byte) *posTable {
+	t := &posTable{line: make([]int, len(src)+1), col: make([]int, len(src)+1)}
+	cur := 0
+	if bytes.HasPrefix(src, utf8BOM) {
+		cur = 3
+	}
+	line, col := 1, 1
+	for {
+		t.line[cur], t.col[cur] = line, col
+		if cur >= len(src) {
+			break
+		}
+		adv, seg, _ := textseg.ScanGraphemeClusters(src[cur:], true)
+		if adv <= 0 {
+			adv = 1
+		}
+		if nl := bytes.Count(seg, []byte{'\n'}); nl > 0 {
+			line += nl
+			col = 1
+			if seg[len(seg)-1] != '\n' {
+				break // columns after a newline in mid-cluster are outside the property
+			}
+		} else {
+			col++
+		}
+		cur += adv
+	}
+	t.tainted = map[int]bool{}
+	lineAt := make([]int, len(src)+1)
+	ln := 1
+	for i := 0; i <= len(src); i++ {
+		lineAt[i] = ln
+		if i < len(src) && src[i] == '\n' {
+			ln++
+		}
+	}
+	toks, _ := hclsyntax.LexConfig(src, "t.hcl", hcl.InitialPos)
+	for _, tok := range toks {
+		for _, off := range []int{tok.Range.Start.Byte, tok.Range.End.Byte} {
+			if off >= 0 && off <= len(src) && t.line[off] == 0 {
+				t.tainted[lineAt[off]] = true
+			}
+		}
+	}
+	return t
+}
+
+// check judges one reported position; "" = consistent or not decidable.
+func (t *posTable) check(src []byte, p hcl.Pos) string {
+	if p.Byte < 0 || p.Byte > len(src) {
+		return fmt.Sprintf("byte offset %d outside the source (%d bytes)", p.Byte, len(src))
+	}
+	if p.Byte < len(src) && !utf8.RuneStart(src[p.Byte]) && utf8.Valid(src) {
+		return fmt.Sprintf("byte offset %d is inside a UTF-8 sequence", p.Byte)
+	}
+	if t.line[p.Byte] == 0 || t.tainted[t.line[p.Byte]] {
+		return "" // inside a grapheme cluster, or on a line where a token boundary splits one: not decidable
+	}
+	if t.line[p.Byte] != p.Line || t.col[p.Byte] != p.Column {
+		return fmt.Sprintf("byte offset %d is reported as line %d column %d, counting newlines and grapheme clusters gives line %d column %d", p.Byte, p.Line, p.Column, t.line[p.Byte], t.col[p.Byte])
+	}
+	return ""
+}
 
 // checkTiling is the C14 invariant over one token stream.
 func checkTiling(src []byte, toks hclsyntax.Tokens, start hcl.Pos) (string, string) {
@@ -233,11 +338,39 @@ func c14Ranges(c *core.Case) {
 	fl := gen.RandomFileLayout(r)
 	fl.BOM = false
 	src := []byte(gen.RenderNative(body, fl))
+	if gen.Chance(r, 0.1) {
+		src = []byte(gen.Pick(r, c14Heredocs))
+		c.Count("ranges-source:heredoc-edges")
+	}
 	c.SetInput(string(src))
 	f, diags := hclsyntax.ParseConfig(src, "t.hcl", hcl.InitialPos)
 	c.Evals(1)
 	if diags.HasErrors() {
 		c.Count("ranges-parse-error(skipped; C02 owns this)")
+		return
+	}
+	// every position recorded anywhere in the tree is faithful to its byte offset
+	pt := newPosTable(src)
+	posBad := ""
+	hclsyntax.VisitAll(f.Body.(*hclsyntax.Body), func(n hclsyntax.Node) hcl.Diagnostics {
+		if posBad != "" || reflect.ValueOf(n).Kind() != reflect.Ptr {
+			return nil
+		}
+		rng := n.Range()
+		if rng.Filename == "" && rng.Start.Byte == 0 && rng.End.Byte == 0 && rng.Start.Line == 0 {
+			return nil // no range recorded
+		}
+		for _, p := range []hcl.Pos{rng.Start, rng.End} {
+			if msg := pt.check(src, p); msg != "" {
+				posBad = fmt.Sprintf("%T range %v (%q): %s", n, rng, trunc(func() string { s, _ := slice(src, rng); return s }(), 80), msg)
+				return nil
+			}
+		}
+		c.Count("node-positions-faithful")
+		return nil
+	})
+	if posBad != "" {
+		c.Violation("range/position-not-faithful", posBad, nil)
 		return
 	}
 	ctx := evalCtx(sc)
